@@ -628,6 +628,8 @@ def execute(sc: dict, ch: Choices, storage_dir: Optional[str], storage_obj=None,
         storage_arg = storage_dir
     else:
         sim_storage = SimStorage(LocalStorage(storage_dir), ctl, split_threshold=sc.get('split_threshold', 0))
+        sim_storage.local_dir = storage_dir
+        sim_storage.delete_order = sc.get('delete_order')
         storage_arg = sim_storage
 
     retention = None
